@@ -12,7 +12,11 @@ CONSTANTS
   ObserveCb = TRUE
   TrackQuiet = FALSE
   UnitMs = 1000
-INVARIANTS TypeOK Converged LearnsLive ForgetsDead SelfListed PeriodRestored NoDuplicateAddr ChannelSane
+  Boot <- NoNodes
+  CrashSet <- AllNodes
+  StopSet <- AllNodes
+  Sync = FALSE
+INVARIANTS TypeOK Converged LearnsLive ForgetsDead PeerForgotten PeerLearnt SelfListed PeriodRestored NoDuplicateAddr ChannelSane
 PROPERTIES CallbackIffChange NoResurrection
 ACTION_CONSTRAINT Dump
 VIEW View
